@@ -1,6 +1,6 @@
-CONSTANTS Variant = "std"  MaxSum = 8  MaxIns = 2  MaxPays = 4  MaxFee = 3
+CONSTANTS Variant = "std"  MaxSum = 7  MaxIns = 2  MaxPays = 4  MaxFee = 2
           ScaleKs = {12}  ScaleRs = {0}
-          SrcPatterns = {"rev", "shared"}  ToPatterns = {"distinct"}
+          SrcPatterns = {"rev"}  ToPatterns = {"distinct"}
           EmitScaled = FALSE
 SPECIFICATION RSpec
 INVARIANTS DoneIsBuild OutcomeOK
